@@ -1,6 +1,8 @@
 package checks
 
 import (
+	"math/rand"
+	"sync"
 	"errors"
 	"fmt"
 	"os"
@@ -23,7 +25,7 @@ func init() {
 		Rule: "E-twin consumer + E-fault: (1) benign PRNG programs (the C01 family with file watches and consumer pauses so the reader lags) must leave Errors empty; " +
 			"(2) directed two-step histories whose second step invalidates a kernel watch before the first notification is processed (rename-then-delete, rename-then-rmdir, delete-then-Remove, rename-then-Remove, recreate-then-re-Add, rename-rename-delete) " +
 			"with the reader held back by a paused consumer for 0..64 earlier events, on files and directories; (3) real queue overflows of 1.1x and 2x max_queued_events (8x in thorough), twice in a row, with changes made while the overflow marker is still unread (after part of the queue was consumed), strace-injected EIO on the inotify read (must be reported, and survived), and the other read paths of the reader: injected EINTR (not a failure: nothing on Errors, nothing lost), injected return values 0 and 8 (end of file / short read: reported, survived): " +
-			"plus the close race (hundreds of iterations: a watched file renamed and the Watcher closed at once while WatchList pollers contend for its lock: nothing may arrive on Errors); an error satisfying errors.Is(ErrEventOverflow) must arrive, afterwards a sentinel, ordinary events, Add and Remove must work. distinct_nontrivial = distinct programs/histories that delivered >=1 event",
+			"watches added with operation sets that lack Remove/Rename (so that only IN_IGNORED tells of their end) whose paths are deleted or renamed: nothing on Errors; plus the close race (hundreds of iterations: a watched file renamed and the Watcher closed at once while WatchList pollers contend for its lock: nothing may arrive on Errors); an error satisfying errors.Is(ErrEventOverflow) must arrive, afterwards a sentinel, ordinary events, Add and Remove must work. distinct_nontrivial = distinct programs/histories that delivered >=1 event",
 		Assumptions: []string{"no fault is injected in parts (1) and (2): any value on Errors there is spurious", "overflow is provoked only in part (3)"},
 		Batches:     func(t string) int { return map[string]int{"quick": 16, "thorough": 64}[t] },
 		MustObserve: []string{"events_received", "directed_histories", "overflow_cases", "other_read_fault_sessions"},
@@ -183,6 +185,15 @@ func runC10(c *core.Ctx) {
 	if c.Batch < c.Pick(2, 6) {
 		c10Overflow(c, c.Batch)
 	}
+	for i := 0; i < c.Pick(6, 30); i++ {
+		rng, ok := c.CaseRng(9800+i, "watches with restricted operation sets end")
+		if !ok {
+			continue
+		}
+		dir, done := caseDir(c, 9800+i)
+		c10RestrictedOps(c, rng, dir, i)
+		done()
+	}
 	if c.Only < 0 {
 		c10OtherReadFaults(c)
 	}
@@ -256,6 +267,95 @@ func c10OtherReadFaults(c *core.Ctx) {
 		if r.Events < r.Expected || !r.LateEventSeen || r.AddAfter != "" || r.RemoveAfter != "" {
 			c.Violate("watcher-did-not-survive-read-error", fmt.Sprintf("after %d tampered reads (%s): %d of %d events delivered, event of a directory added afterwards seen=%v, Add=%q Remove=%q", inj, sp.spec, r.Events, r.Expected, r.LateEventSeen, r.AddAfter, r.RemoveAfter), r)
 		}
+	}
+}
+
+// c10RestrictedOps: a watch whose operation set lacks Remove and/or Rename (the unexported option, through the
+// hook) ends with IN_IGNORED only - the one notification the library then has to clean up by itself. Whatever it
+// does for that, the kernel has already dropped the watch: nothing may arrive on Errors.
+func c10RestrictedOps(c *core.Ctx, rng *rand.Rand, dir string, idx int) {
+	w, err := fsnotify.NewBufferedWatcher(uint([]int{0, 8}[rng.Intn(2)]))
+	if err != nil {
+		c.Broken(err.Error())
+		return
+	}
+	defer w.Close()
+	base := filepath.Join(dir, "t")
+	sd := filepath.Join(dir, "s")
+	os.MkdirAll(base, 0o755)
+	os.MkdirAll(sd, 0o755)
+	var mu sync.Mutex
+	var errs []string
+	sent := make(chan string, 64)
+	go func() {
+		ev, er := w.Events, w.Errors
+		for ev != nil || er != nil {
+			select {
+			case e, ok := <-ev:
+				if !ok {
+					ev = nil
+				} else if filepath.Dir(e.Name) == sd {
+					sent <- e.Name
+				}
+			case e, ok := <-er:
+				if !ok {
+					er = nil
+				} else {
+					mu.Lock()
+					errs = append(errs, e.Error())
+					mu.Unlock()
+				}
+			}
+		}
+	}()
+	w.Add(sd)
+	sets := []fsnotify.Op{fsnotify.Write | fsnotify.Chmod, fsnotify.Create | fsnotify.Write, fsnotify.Chmod, fsnotify.Write | fsnotify.Rename, fsnotify.Create | fsnotify.Remove}
+	var hist []string
+	for k := 0; k < 6; k++ {
+		isDir := rng.Intn(3) == 0
+		p := filepath.Join(base, fmt.Sprint("x", k))
+		if isDir {
+			os.Mkdir(p, 0o755)
+		} else {
+			os.WriteFile(p, nil, 0o644)
+		}
+		ops := sets[rng.Intn(len(sets))]
+		if err := w.AddWith(p, fsnotify.VerifWithOps(ops)); err != nil {
+			c.Broken(err.Error())
+			return
+		}
+		how := []string{"delete", "rename-then-delete", "rename-away"}[rng.Intn(3)]
+		hist = append(hist, fmt.Sprintf("AddWith(x%d, %s) %s", k, ops, how))
+		switch how {
+		case "delete":
+			os.Remove(p)
+		case "rename-then-delete":
+			os.Rename(p, p+"~")
+			os.Remove(p + "~")
+		case "rename-away":
+			os.Rename(p, p+"~")
+		}
+	}
+	mark := filepath.Join(sd, "m")
+	os.WriteFile(mark, nil, 0o644)
+	t := time.NewTimer(twin.WatchdogTimeout)
+	defer t.Stop()
+	for done := false; !done; {
+		select {
+		case n := <-sent:
+			done = n == mark
+		case <-t.C:
+			c.Inconclusive("restricted-ops history: barrier watchdog " + hangClass(core.AllStacks()))
+			return
+		}
+	}
+	c.Count("restricted_ops_histories", 1)
+	c.Eval(1)
+	c.Distinct("restricted-ops", idx, c.Batch)
+	mu.Lock()
+	defer mu.Unlock()
+	if len(errs) > 0 {
+		c.Violate(errSig(errs[0]), fmt.Sprintf("watches with restricted operation sets whose paths were deleted/renamed put %q on Errors; history %v", errs, hist), hist)
 	}
 }
 
